@@ -3,8 +3,21 @@
 package ipoe
 
 import (
+	"fmt"
+	"net"
+	"os"
+	"sync"
 	"testing"
 	"time"
+
+	"github.com/google/gopacket"
+	"github.com/veesix-networks/osvbng/pkg/cache/memory"
+	"github.com/veesix-networks/osvbng/pkg/component"
+	"github.com/veesix-networks/osvbng/pkg/config/ip"
+	"github.com/veesix-networks/osvbng/pkg/events"
+	"github.com/veesix-networks/osvbng/pkg/ifmgr"
+	"github.com/veesix-networks/osvbng/pkg/logger"
+	"github.com/veesix-networks/osvbng/pkg/models"
 
 	"github.com/google/gopacket/layers"
 	"github.com/veesix-networks/osvbng/pkg/config"
@@ -20,12 +33,82 @@ func (f *c07L2GWCfg) LookupSubscriberGroup(svlan, cvlan uint16) (subscriber.Grou
 	return subscriber.GroupMatch{Name: "l2gw", Group: f.grp}, true
 }
 
+type c07IPoEBus struct {
+	mu sync.Mutex
+	n  int
+}
+
+func (b *c07IPoEBus) Publish(string, events.Event)                         { b.mu.Lock(); b.n++; b.mu.Unlock() }
+func (b *c07IPoEBus) Subscribe(string, events.Handler) events.Subscription { return c07IPoESub{} }
+func (b *c07IPoEBus) SubscribeAll(events.Handler) events.Subscription      { return c07IPoESub{} }
+func (b *c07IPoEBus) Stats() events.Stats                                  { return events.Stats{} }
+func (b *c07IPoEBus) SetDebugTopics([]string)                              {}
+func (b *c07IPoEBus) DebugTopics() []string                                { return nil }
+func (b *c07IPoEBus) Close() error                                         { return nil }
+
+type c07IPoESub struct{}
+
+func (c07IPoESub) Unsubscribe() {}
+
+type c07IPoECfg struct{ cfg *config.Config }
+
+func (f *c07IPoECfg) GetRunning() (*config.Config, error) { return f.cfg, nil }
+func (f *c07IPoECfg) GetStartup() (*config.Config, error) { return f.cfg, nil }
+func (f *c07IPoECfg) LookupSubscriberGroup(svlan, cvlan uint16) (subscriber.GroupMatch, bool) {
+	return subscriber.BuildMatchIndex(f.cfg.SubscriberGroups).Lookup(svlan, cvlan)
+}
+
+// fzipoe <mode> <dhcpv4 message> ...: ONE IPoE component fed a sequence of DHCPv4 messages (BOOTP payloads, decoded by
+// gopacket as the ingress does) through processDHCPPacket: DISCOVER / REQUEST / RELEASE / DECLINE / INFORM from the access
+// side and OFFER / ACK / NAK as a relay server would send them; crash / hang observables only.
+func c07IPoESequence(n []uint64, f []string) string {
+	ifMgr := ifmgr.New()
+	ifMgr.Add(&ifmgr.Interface{SwIfIndex: 10, SupSwIfIndex: 2, Name: "TenGigE0/0.100", Type: ifmgr.IfTypeSub, OuterVlanID: 100})
+	ifMgr.Add(&ifmgr.Interface{SwIfIndex: 2, Name: "TenGigE0/0", Type: ifmgr.IfTypeHardware, MAC: []byte{0x52, 0x54, 0x00, 0x11, 0x22, 0x33}})
+	mode := "server"
+	if c07Num(n, 0) == 1 {
+		mode = "relay"
+	}
+	cfg := &config.Config{
+		SubscriberGroups: &subscriber.SubscriberGroupsConfig{Groups: map[string]*subscriber.SubscriberGroup{
+			"grp": {IPv4Profile: "v4", VLANs: []subscriber.VLANRange{{SVLAN: "100"}}}}},
+		IPv4Profiles: map[string]*ip.IPv4Profile{"v4": {DHCP: &ip.IPv4DHCPOptions{Mode: mode}}},
+	}
+	c := &Component{Base: component.NewBase("ipoe-c07"), logger: logger.NewTest(), eventBus: &c07IPoEBus{}, ifMgr: ifMgr,
+		cfgMgr: &c07IPoECfg{cfg: cfg}, cache: memory.New()}
+	for k := range f {
+		raw := c07Arg(f, k)
+		pk := gopacket.NewPacket(raw, layers.LayerTypeDHCPv4, gopacket.Default)
+		d4, _ := pk.Layer(layers.LayerTypeDHCPv4).(*layers.DHCPv4)
+		if d4 == nil {
+			continue
+		}
+		mac := net.HardwareAddr{0xaa, 0xbb, 0xcc, 0, 0, 1}
+		if len(d4.ClientHWAddr) == 6 {
+			mac = d4.ClientHWAddr
+		}
+		pkt := &dataplane.ParsedPacket{Protocol: models.ProtocolDHCPv4, MAC: mac, OuterVLAN: 100, SwIfIndex: 10, DHCPv4: d4, RawPacket: raw}
+		if !c07Returns(1500*time.Millisecond, func() { _ = c.processDHCPPacket(pkt) }) {
+			c07Hangs++
+			return "hang"
+		}
+	}
+	if os.Getenv("VERIF_C07_DEBUG") != "" {
+		ns := 0
+		c.sessions.Range(func(_, _ any) bool { ns++; return true })
+		fmt.Fprintf(os.Stderr, "c07ipoe sessions=%d published=%d\n", ns, c.eventBus.(*c07IPoEBus).n)
+	}
+	return "nocrash"
+}
+
 func c07IPoE(entry string, n []uint64, f []string) string {
 	data := c07Arg(f, 0)
 	switch entry {
 	case "sub82":
 		c, r := parseOption82(data)
 		return c07Ok(c07TBN(c), c07TBN(r))
+	case "fzipoe":
+		return c07IPoESequence(n, f)
 	case "ipoeopts": // ipoeopts <wanted,type,...> <value> ...: getDHCPMessageType / getDHCPOption over decoded options
 		var opts layers.DHCPOptions
 		for i := 1; i < len(n); i++ {
